@@ -2,7 +2,7 @@
 From PdfV Require Import Base.Prelude Gen.Generated Lex.Lexer
   Safety.Front Safety.Numeric Safety.Walks Properties.C14.
 From PdfV Require Codec.Model Codec.Dispatch Codec.Pairing Codec.ChainProofs ObjStm.Model XRef.Model
-  Font.Model Font.WidthProofs PageTree.Model Crypt.Model Import.Model Import.Theorems Syn.Prim.
+  Font.Model Font.WidthProofs PageTree.Model Crypt.Model Crypt.SafeProofs Import.Model Import.Theorems Syn.Prim.
 
 Check C14_guarded_walk : forall nodes g, (forall n, In n nodes -> incl (g n) nodes) -> forall stop key, In key nodes ->
   exists ok, guarded (S (length nodes)) stop g [] key = Ok ([], ok).
@@ -31,9 +31,11 @@ Check C14_xref_section_cost : forall first num w0 w1 w2 data allow s rest,
 Check C14_widths : forall dw items, Font.WidthProofs.clean (Font.Model.cid_widths dw items).
 Check C14_type0 : forall (A : Type) (ds : list A) f, (forall d, Font.WidthProofs.clean (f d)) ->
   Font.WidthProofs.clean (Font.Model.type0_widths ds f).
-Check C14_crypt_key_length : forall md5, (forall x, exists h, md5 x = Ok h /\ length h = 16%nat) ->
-  forall sha256 sha384 sha512 aes_enc aes_dec prep fuel d id pass, Crypt.Model.d_r d <= 4 ->
-  never_crashes (Crypt.Model.from_password md5 sha256 sha384 sha512 aes_enc aes_dec prep fuel d id pass).
+Check C14_crypt_key_length : forall MD5 SHA256 SHA384 SHA512 AESE AESD PREP, (forall x, length (MD5 x) = 16%nat) ->
+  forall fuel d id0 pass s,
+  Crypt.Model.from_password (fun x => Ok (MD5 x)) (fun x => Ok (SHA256 x)) (fun x => Ok (SHA384 x)) (fun x => Ok (SHA512 x))
+                (fun k iv x => Ok (AESE k iv x)) (fun k iv x => Ok (AESD k iv x)) (fun x => Ok (PREP x)) fuel d id0 pass
+  <> Panic s.
 Check C14_page_counts : forall st root i, i <= PageTree.Model.u32_max ->
   no_panic (PageTree.Model.load_root st (S (length st)) root) /\
   forall rt, no_panic (PageTree.Model.get_page st (S (length st)) rt i).
